@@ -104,8 +104,14 @@ func HManyTables() {
 		w.RemoveEntity(ents[i])
 		alive[i] = false
 	case 1: // retarget a child of the second page to a parent of the first page and back
-		w.Relations().Set(ents[k], ids[uR1], ents[first-1-vChoice("parent", 3)])
-		tgts[k] = w.Relations().Get(ents[k], ids[uR1])
+		np := [3]int{first - 1, first - 2, n - 1}[vChoice("parent", 3)] // n-1: an entity id beyond the first 64
+		vAssume(np != k)
+		w.Relations().Set(ents[k], ids[uR1], ents[np])
+		tgts[k] = ents[np]
+		if vChoice("then-target-dies", 2) == 1 {
+			w.RemoveEntity(ents[np])
+			alive[np] = false
+		}
 	case 2: // batch: all children lose their relation
 		w.Batch().Remove(&mr, ids[uR1])
 		for i := 0; i < n; i++ {
